@@ -103,7 +103,15 @@ func CandSigs(param []byte) [][]byte {
 	return ss
 }
 
-func VerifyCell(key, data, sig []byte) string {
+func VerifyCell(key, data, sig []byte) (cell string) {
+	// the oracle table is built with the code under test: if that code panics here, say so in the
+	// cell (the op then reaches Exec, where the panic is the implementation's answer) instead of
+	// taking the harness down
+	defer func() {
+		if e := recover(); e != nil {
+			cell = "p"
+		}
+	}()
 	pk, err := crypto.DecodePoint(key)
 	if err != nil {
 		return "e"
